@@ -457,6 +457,7 @@ REQ_KA = b"GET /ka HTTP/1.1\r\nHost: h\r\n\r\n"
 REQ_CLOSE = b"GET /cl HTTP/1.1\r\nHost: h\r\nConnection: close\r\n\r\n"
 REQ_GATED = b"GET /gate HTTP/1.1\r\nHost: h\r\n\r\n"
 REQ_BAD = b"GET / HTTP/9.9\r\n\r\n"
+REQ_BOOM = b"GET /boom HTTP/1.1\r\nHost: h\r\n\r\n"        # the application fails after part of its response has gone out
 
 
 class Kernel:
@@ -573,6 +574,12 @@ class Kernel:
                         break
                 self.gate_wait.pop(threading.get_ident(), None)
                 self.thread_state(threading.get_ident(), "running")
+        if environ.get("PATH_INFO") == "/boom":
+            def failing():
+                yield b"part"
+                raise RuntimeError("scripted application failure after output")
+            start_response("200 OK", [("Content-Length", "10")])
+            return failing()
         start_response("200 OK", [("Content-Length", "2")])
         return [b"ok"]
 
@@ -604,7 +611,7 @@ class Kernel:
             cl = self.client(cid)
             if not cl["connected"] or cl["closed"]:
                 return
-            data = {"ka": REQ_KA, "close": REQ_CLOSE, "gated": REQ_GATED, "bad": REQ_BAD,
+            data = {"ka": REQ_KA, "close": REQ_CLOSE, "gated": REQ_GATED, "bad": REQ_BAD, "boom": REQ_BOOM,
                     "half": REQ_KA[:11], "rest": REQ_KA[11:]}[what]
             self.deliver(cid, data)
         elif kind == "release":
